@@ -154,7 +154,8 @@ def check_C02(ctx):
     # accepted iff the local part is (the domain is valid, TLD checking off), in particular with '@' inside quoted words
     locs = [bytes.fromhex(l.split()[1]) if l.split()[1] != '-' else b'' for l in gens.local_class(4)]
     locs += [b'a."@"', b'a."b@c"', b'a."@".b', b'"@"', b'"a@b".c', b'"@".a', b'a."\\@"', b'"a"."@"."b"', b'a.b."c@d".e', b'a@b', b'a."@', b'a"@"']
-    locs = [l for l in locs if 0 not in l and len(l) <= 64]
+    locs += [a[:a.rfind(b'@')] for a in src_addrs(ctx) if a.endswith(b'@b.com')]
+    locs = sorted(set(l for l in locs if 0 not in l and len(l) <= 64))
     addrs = [l + b'@' + d for l in locs for d in (b'ok.com', b'[1.2.3.4]')]
     el = gens.e_lines(addrs, {}, modes=(0, 1, 2), tlds=(0,))
     corr(ctx, 'local@domain(composers)', el, lambda ln, o: dec(o.split(' ')[0]), describe=lambda ln, a, b: 'is_<mode>_email on <local>@<valid domain> decides differently from the model (whose local-part half is the grammar of C02_local_part_grammar): %s vs %s' % (a, b),
@@ -216,6 +217,7 @@ def check_C04(ctx):
     bases = [b'a.test', b'test', b'example.com', b'a.example.org', b'localhost', b'b.onion', b'a.io', b'b.com', b'x.museum', b'a.zz', b'io', b'1.2', b'a.xn--p1ai']
     tails = [b''.join(t) for k in range(0, 4) for t in itertools.product([b'.', b'-', b'a', b'1'], repeat=k)]
     fam = sorted(set([b + t for b in bases for t in tails] + [t + b for b in bases for t in tails if len(t) <= 2] + [b.replace(b'.', b'..', 1) for b in bases] + [b.replace(b'.', b'.-', 1) for b in bases]))
+    fam = sorted(set(fam + [a[a.rfind(b'@') + 1:] for a in src_addrs(ctx) if a.startswith(b'a@') and b'[' not in a and a.count(b'@') == 1]))
     orc2 = vlib.idn_oracle(fam)
     corr(ctx, 'is_utf8_domain(tld on, names + dots)', gens.u_lines(fam, orc2, tlds=(1, 0)), uproj, describe=describe, nontrivial=nontriv)
     corr(ctx, 'email(tld on, names + dots)', gens.e_lines([b'x@' + d for d in fam], orc2, tlds=(1,)), lambda ln, o: (int(o.split(' ')[0]) >= 0) if o and o[0] in '-0123456789' else o, describe=describe,
@@ -280,6 +282,7 @@ def check_C03(ctx):
     # mode 6531 as a whole: the same local parts in front of a host name and of address literals (no IDN conversion is involved for these domains)
     locs = [bytes.fromhex(l.split()[1]) for l in gens.local_class(4) if l.split()[1] != '-'] + [bytes.fromhex(l.split()[1]) for l in sub(ctx, gens.utf8_lines(False), 7) if l.split()[1] != '-']
     locs += ['é'.encode(), 'a.é.b'.encode(), '"é"'.encode(), 'Ю.Я'.encode(), '€'.encode(), '😀.a'.encode(), b'a.\xc3', b'\xff']
+    locs += [a[:a.rfind(b'@')] for a in src_addrs(ctx) if a.endswith(b'@b.com')]
     locs = sorted(set(l for l in locs if 0 not in l and 0 < len(l) <= 64))
     doms = (b'b.com', b'[1.2.3.4]', b'[IPv6:::1]', b'[1::2:3:4]')
     addrs = [l + b'@' + d for l in locs for d in doms]
@@ -343,7 +346,7 @@ def check_C12(ctx):
     for d in cd:
         for v in cases(d):
             addrs += [b'u@' + v, b'u@' + v + b'.']
-    addrs = sorted(set(addrs))
+    addrs = sorted(set(addrs + src_addrs(ctx)))
     orc = vlib.idn_oracle(gens.domains_of(addrs))
     elines = gens.e_lines(addrs, orc)
     corr(ctx, 'addresses', elines, lambda ln, o: ' '.join(o.split(' ')[:3]), nontrivial=nontriv, exhaustive=False, genuine=False,
@@ -390,6 +393,14 @@ def facade_decision(ln, o):
     tok = o.split(' ')
     return tok[4].split(':')[0] if len(tok) > 4 else o
 
+def src_addrs(ctx):
+    """addresses built around the string / character / integer literals of the sources under check (gens.source_addresses)"""
+    if not hasattr(ctx, '_src_addrs'):
+        ctx._src_addrs = gens.source_addresses(ctx.snap.src)
+        w, n = gens.source_dictionary(ctx.snap.src)
+        ctx.rep.notes.append('source dictionary: %d string/char literals, %d integer literals -> %d addresses' % (len(w), len(n), len(ctx._src_addrs)))
+    return ctx._src_addrs
+
 def sub(ctx, lst, k):
     """every k-th element in the quick tier (the offset follows VERIF_SEED, so different seeds see different elements); everything in the thorough tier"""
     return lst if ctx.thorough() else lst[(ctx.seed % k)::k]
@@ -414,7 +425,7 @@ def check_C01(ctx):
     addrs += [b'u@[' + c + b']' for c in gens.ip_contents()]
     # several '@', quoted '@' after an atom, and '@' inside the domain
     addrs += [l + b'@' + d for l in (b'a."@"', b'a."b@c"', b'a."@".b', b'"@"', b'"a@b".c', b'a@b', b'"a"@"b"', b'a.@', b'@') for d in (b'ok.com', b'[1.2.3.4]', b'b@c.com', b'test', b'')]
-    addrs = sorted(set(addrs))
+    addrs = sorted(set(addrs + src_addrs(ctx)))
     orc = vlib.idn_oracle(gens.domains_of(addrs))
     el = gens.e_lines(addrs, orc)
     desc = lambda ln, a, b: ('result code of is_<mode>_email (fields: mode tld address) differs from the model of theorems C01_decision_*/C01_composition: '
@@ -480,6 +491,7 @@ def check_C07(ctx):
         doms.append(b'b.' + nme[:-1])
         doms.append(b'b.' + nme + b'x')
         doms.append(nme + b'.' + b'zz-unlisted')
+    doms += [a[a.rfind(b'@') + 1:] for a in src_addrs(ctx) if a.startswith(b'a@') and b'[' not in a and a.count(b'@') == 1]
     orc = vlib.idn_oracle(doms)
     el = gens.e_lines([b'u@' + d for d in doms], orc, tlds=(1,))
     corr(ctx, 'email(tld on)', el, first_fields(1), nontrivial=nontriv_addr, describe=desc, level=lvl_email(keep=(-26, -23), fields=()))
@@ -515,6 +527,7 @@ def check_C09(ctx):
     doms += [p + b'x' * n for n in range(0, 70) for p in (b'', b'a.', b'example.', b'a.b.')] + [d for d in sub(ctx, gens.dom_boundary(), 5)]
     corr(ctx, 'is_special_domain', ['S %s' % hx(d) for d in doms], lambda ln, o: o, exhaustive=True, describe=desc,
          nontrivial=lambda ln, o: True, note='0-3 labels of lengths 1-63 and the words example/mailbox/test/com... before each reserved suffix and its one-edit neighbours, several case patterns')
+    doms = doms + [a[a.rfind(b'@') + 1:] for a in src_addrs(ctx) if a.startswith(b'a@') and b'[' not in a and a.count(b'@') == 1]
     valid = [d for d in doms if not d.endswith(b'.') and b'..' not in d and not d.startswith(b'.')]
     orc = vlib.idn_oracle(valid)
     corr(ctx, 'email(tld on)', gens.e_lines([b'u@' + d for d in valid], orc, tlds=(1,)), first_fields(1), describe=desc, nontrivial=nontriv_addr, level=lvl_email(fields=()))
@@ -793,7 +806,7 @@ def code_truth(rc, mode, tld, a, orc_rc, alabel, tldset):
     if rc == -17 and not any(len(x) > 63 for x in labels): return '"label too long" but no label of the (A-label form of the) domain exceeds 63 octets'
     if rc == -18 and not any(x.startswith(b'-') or x.endswith(b'-') for x in labels if x): return '"misplaced hyphen" but no label starts or ends with a hyphen'
     if rc == -19 and not any(x == b'' for x in labels): return '"misplaced delimiter" but the domain has no empty label'
-    if rc == -20 and all(48 <= c <= 57 or 65 <= c <= 90 or 97 <= c <= 122 or c in b'-._' for c in Dx): return '"invalid characters" but the domain consists of letters, digits, hyphens, dots (and underscores) only'
+    if rc == -20 and all(48 <= c <= 57 or 65 <= c <= 90 or 97 <= c <= 122 or c in b'-.' for c in Dx): return '"invalid characters" but the domain consists of letters, digits, hyphens and dots only'
     if rc == -21 and len(Dx) < 254: return '"domain too long" but it has fewer than 254 octets'
     if rc == -22 and not all(48 <= c <= 57 or c == 46 for c in Dx): return '"numeric domain" but the domain has a byte other than digits and dots'
     if rc == -23 and b'.' in Dx: return '"not FQDN" but the domain contains a dot'
@@ -808,7 +821,7 @@ def check_C15(ctx):
     tab = ctx.snap.dump()
     # the message table of this build vs the documented one is Theorem C15_message_table (regenerated GenEnums.v)
     addrs = sorted(set(gens.addr_class(4) + gens.addr_class(4, alpha=gens.ADDR_ALPHA_Q) + gens.addr_structured() + gens.addr_boundary() +
-                       [b'u@' + d for d in sub(ctx, gens.dom_boundary(), 7)] + [b'u@' + d for d in sub(ctx, gens.reserved_domains(), 5) if b'@' not in d]))
+                       [b'u@' + d for d in sub(ctx, gens.dom_boundary(), 7)] + [b'u@' + d for d in sub(ctx, gens.reserved_domains(), 5) if b'@' not in d] + src_addrs(ctx)))
     byclass = {}
     for nme, l, t in tab['tld']:
         byclass.setdefault(t, bytes.fromhex(nme))
@@ -880,7 +893,7 @@ def check_C15(ctx):
 def check_C16(ctx):
     step_proof(ctx)
     addrs = sorted(set(gens.addr_class(4) + gens.addr_class(4, alpha=gens.ADDR_ALPHA_Q) + gens.addr_structured() + gens.addr_boundary() +
-                       [b'u@[' + c + b']' for c in sub(ctx, gens.ip_contents(), 3)] + [b'u@' + d for d in sub(ctx, gens.reserved_domains(), 9) if b'@' not in d]))
+                       [b'u@[' + c + b']' for c in gens.ip_contents()] + [b'u@' + d for d in sub(ctx, gens.reserved_domains(), 9) if b'@' not in d] + src_addrs(ctx)))
     orc = vlib.idn_oracle(gens.domains_of(addrs))
     el = gens.e_lines(addrs, orc)
     desc = lambda ln, a, b: 'result record (rc idn_rc is_ipv4/is_ipv6/is_domain lpart domain) differs from the model of theorem C16_result_shapes: %s vs %s' % (a, b)
@@ -1144,6 +1157,7 @@ def check_C05(ctx):
     for c in contents[::5]:
         for pre, post in ((b'', b'x'), (b'a', b''), (b' ', b''), (b'', b' '), (b'', b']'), (b'[', b'')):
             addrs.append(b'u@' + pre + b'[' + c + b']' + post)
+    addrs += [a for a in src_addrs(ctx) if b'@[' in a]
     addrs += [b'u@[' + c + b']' for c in small[::3]] + [b'u@[', b'u@[]', b'u@[1.2.3.4', b'u@]1.2.3.4[', b'u@[[1.2.3.4]]', b'"u@["@[1.2.3.4]']
     el = gens.e_lines(addrs, {})
     corr(ctx, 'addresses', el, first_fields(3), describe=desc, nontrivial=nontriv_addr, level=lvl_email())
